@@ -320,13 +320,53 @@ Definition written (f : fault) : bool * bool :=
   end.
 Definition failed (f : fault) : bool := match f with NoFault => false | _ => true end.
 
-(* apply_config past its guard with a config that differs, setting append_only to `new_ao` *)
-Definition config_step (set_first cold_first : bool) (f : fault) (new_ao : bool) (s : cfg) : cfg :=
+(* apply_config past its guard with a config that differs, setting append_only to `new_ao`.
+   On a failed save the handle holds the new config when set_config came first, the old one
+   otherwise; with `restrict` (the failure branch found in the source) it additionally keeps
+   append_only = Some(true) when the config it held before the change had it. *)
+Definition config_step (set_first restrict cold_first : bool) (f : fault) (new_ao : bool) (s : cfg) : cfg :=
   let (w1, w2) := written f in
   let (cw, hw) := if cold_first then (w1, w2) else (w2, w1) in
   mk_cfg (if cw then new_ao else c_cold s)
          (if hw then new_ao else c_hot s)
-         (if failed f then (if set_first then new_ao else c_handle s) else new_ao).
+         (if failed f then (if set_first then new_ao else c_handle s) || (restrict && c_handle s) else new_ao).
+
+(* the handle is at least as restrictive as the stored (cold, authoritative) config *)
+Definition handle_covers_store (s : cfg) : Prop := c_cold s = true -> c_handle s = true.
+
+(* ------------------------------------------------------------------ Part 4: the Indexer *)
+(* index/indexer.rs.  Entry points call `indexer.add*` (the sink sites of the table) and, often
+   unconditionally, `finalize`.  add_with counts the blobs, appends the pack to the pending file
+   and saves + resets by itself once count >= MAX_COUNT or the file is older than MAX_AGE;
+   finalize = save; save writes the pending file - only if it holds a pack, when the source says
+   so (`needs`).  The number returned is the number of index files written. *)
+Record ixstate := mk_ix { ix_count : N; ix_packs : N }.
+Inductive ixev := IxAdd (blobs : N) (aged : bool) | IxFinalize.
+Definition ix_save (needs : bool) (s : ixstate) : N :=
+  if needs then (if (0 <? ix_packs s)%N then 1%N else 0%N) else 1%N.
+Definition ix_step (needs : bool) (maxc : N) (s : ixstate) (e : ixev) : ixstate * N :=
+  match e with
+  | IxAdd b aged =>
+      let s1 := mk_ix (ix_count s + b) (ix_packs s + 1) in
+      if (maxc <=? ix_count s1)%N || aged then (mk_ix 0 0, ix_save needs s1) else (s1, 0%N)
+  | IxFinalize => (s, ix_save needs s)
+  end.
+Fixpoint ix_run (needs : bool) (maxc : N) (s : ixstate) (evs : list ixev) : N :=
+  match evs with
+  | [] => 0%N
+  | e :: r => let (s', w) := ix_step needs maxc s e in (w + ix_run needs maxc s' r)%N
+  end.
+Definition is_finalize (e : ixev) : bool := match e with IxFinalize => true | _ => false end.
+
+(* the indexer events an entry run causes: one add per name handed to a sink site that runs *)
+Definition is_sink_site (s : site) : bool := is_sink_kind (s_kind s).
+Fixpoint ix_events (v : valuation) (ss : list site) (pl : list (list (bool * id))) : list ixev :=
+  match ss with
+  | [] => []
+  | s :: r =>
+      (if is_sink_site s && conds_hold v s then map (fun x => IxAdd (snd x) false) (hd [] pl) else [])
+      ++ ix_events v r (tl pl)
+  end.
 
 (* the shared OCaml prelude converts to Z as well: keep the type in the extracted module *)
 Definition z_keep (z : BinNums.Z) : BinNums.Z := z.
